@@ -350,6 +350,8 @@ class HConc(HBase):
         sc = max(1.0, abs(l), abs(r), float(scale or 0))
         err = abs(l - r)
         ok = bool(err <= self.tol * sc) and not (math.isnan(err))
+        if not ok and ((l != l and r != r) or l == r):
+            ok, err = True, 0.0  # both sides NaN, or the same infinity: the two computations agree
         self.results[name] = dict(ok=ok, lhs=l, rhs=r, err=err / sc)
 
     def prove_all_eq(self, name, lhs_arr, rhs_arr, **kw):
@@ -1085,6 +1087,8 @@ def translator_validation(harness, runs, seed, n=3, log=print):
                     continue
                 if cres["ok"] is False:
                     out["concrete_failures"].append((r.case.name, o.name, dict(vals=None, err=cres["err"])))
+                if o.kind == "eq" and cres.get("lhs") is None:
+                    continue
                 if o.kind == "eq":
                     try:
                         env2 = feval.Env(r.ctx, vals_used, o.lu_log, rng)
